@@ -318,6 +318,11 @@ private:
 
   friend cpc_compressor<A>;
   friend cpc_union_alloc<A>;
+#ifdef DATASKETCHES_VERIF
+public:
+  // verification hook (-DDATASKETCHES_VERIF only): read-only access to the reconstructed k-by-64 coupon bit matrix
+  vector_u64 verif_bit_matrix() const { return build_bit_matrix(); }
+#endif
 };
 
 } /* namespace datasketches */
